@@ -1251,6 +1251,21 @@ class Symbolic(
             f'sealed {parent_node.__class__.__name__}: {parent_node!r}. '
             f'(path=\'{path.parent}\')')
 
+  def _invalidate_content_caches(self) -> None:
+    """Resets content-based caches of this node and of all its ancestors.
+
+    `sym_missing`, `sym_nondefault` and `sym_puresymbolic` (thus `is_partial`)
+    are memoised per node. Every write to the contents of a node calls this
+    method, so that these facts are recomputed whether or not a change
+    notification is delivered for the write.
+    """
+    target = self
+    while target is not None:
+      target._set_raw_attr('_sym_puresymbolic', None)       # pylint: disable=protected-access
+      target._set_raw_attr('_sym_missing_values', None)     # pylint: disable=protected-access
+      target._set_raw_attr('_sym_nondefault_values', None)  # pylint: disable=protected-access
+      target = target.sym_parent
+
   def _reset_content_caches(self, field_updates: List[FieldUpdate]) -> None:
     """Resets content-based caches of updated nodes and their ancestors.
 
@@ -1262,12 +1277,7 @@ class Symbolic(
       field_updates: The updates that were applied.
     """
     for update in field_updates:
-      target = update.target
-      while target is not None:
-        target._set_raw_attr('_sym_puresymbolic', None)       # pylint: disable=protected-access
-        target._set_raw_attr('_sym_missing_values', None)     # pylint: disable=protected-access
-        target._set_raw_attr('_sym_nondefault_values', None)  # pylint: disable=protected-access
-        target = target.sym_parent
+      update.target._invalidate_content_caches()  # pylint: disable=protected-access
 
   def _notify_field_updates(
       self,
